@@ -11,16 +11,17 @@ from .. import rx
 from ..events import run_function
 from ..interp import AV, Out
 from ..model import AnalysisError
-from ..terms import T, TermRule, destruct, is_opaque, term_of, tv
+from ..rows import GenRule, private_helpers
+from ..terms import K, T, TermRule, destruct, is_opaque, term_of, tv
 
 MH = "urllib3.util.ssl_match_hostname"
 
 
-class PatRule(TermRule):
+class PatRule(GenRule):
     def getattr(self, it, st, node, base):
         if isinstance(node.value, ast.Name) and node.value.id == "re":
             return tv(f"re.{node.attr}", none=False, truth=True)
-        return None
+        return super().getattr(it, st, node, base)
 
     def call_hook(self, it, st, node, recv, pos, kw):
         t = ast.unparse(node.func)
@@ -29,6 +30,11 @@ class PatRule(TermRule):
         if t == "re.compile" and a:
             return [Out("normal", st, tv(T("re.compile", a[0], a[1] if len(a) > 1 else (fl or "0")), none=False, truth=True))]
         if t == "re.escape" and a:
+            if pos[0].kind == "const" and isinstance(pos[0].val, str):
+                import re as _re
+
+                from ..interp import const as _c
+                return [Out("normal", st, _c(_re.escape(pos[0].val)))]  # constant folding of a pure stdlib function
             return [Out("normal", st, tv(T("re.escape", a[0]), none=False))]
         if t in ("re.match", "re.fullmatch", "re.search") and len(a) >= 2:
             return [Out("normal", st, tv(T("rx." + t[3:], T("re.compile", a[0], a[2] if len(a) > 2 else (fl or "0")), a[1])))]
@@ -38,10 +44,7 @@ class PatRule(TermRule):
         if t == "bool" and pos and pos[0].kind == "const":
             from ..interp import const
             return [Out("normal", st, const(bool(pos[0].val)))]
-        q = it.resolve_callee(node, recv)
-        if q and it.m.is_exception_class(q):
-            return [Out("normal", st, AV("exc", it.m.norm(q), truth=True, none=False))]
-        return None
+        return super().call_hook(it, st, node, recv, pos, kw)
 
 
 def _dotless_repeat(pattern, min_needed):
@@ -92,11 +95,12 @@ def run(ctx):
     R2 = ctx.rule("C08-R2", "more than max_wildcards (default 1) wildcards in the left-most label raise before any pattern is built; wildcards are counted in the left-most label only", "E10 effect rows")
     R3 = ctx.rule("C08-R3", "IDN rule: a left-most label or a hostname starting with xn-- gets no wildcard expansion inside the label (the label is escaped)", "E10 effect rows")
 
-    outs, it = run_function(m, dm, PatRule())
+    helpers = private_helpers(m, MH, exclude=("_dnsname_match", "_ipaddress_match"))
+    outs, it = run_function(m, dm, PatRule(ctx, MH, inline=helpers), inline=frozenset(helpers))
     ctx.states += it.budget.steps
     rows = [o for o in outs if not (o.kind == "raise" and str(o.val.val).startswith("<"))]
 
-    SPLIT = [T("split", pdn, "'.'"), T("split", pdn, "'.'", "-1")]
+    SPLIT = [T("split", pdn, K(".")), T("split", pdn, K("."), "-1")]
 
     def leftmost_of(o):
         for sp in SPLIT:
@@ -115,7 +119,7 @@ def run(ctx):
     with_rest, without_rest = set(), set()
     for o in rows:
         sp, L = leftmost_of(o)
-        cnt = T("count", L, "'*'")
+        cnt = T("count", L, K("*"))
         over = o.st.ts.get(("cmp", cnt, ">", pmax)) if pmax else None
         wild = o.st.facts.get(cnt, (None, None))[0]
         out = ("raise:" + str(o.val.val).rsplit(".", 1)[-1]) if o.kind == "raise" else ("return:" + term_of(o.val) if o.kind == "return" else "normal")
@@ -191,9 +195,9 @@ def run(ctx):
             else:
                 without_rest.add(first)
             # ---- the left-most label
-            star = o.st.ts.get(("cmp", L, "==", "'*'"))
-            idn = o.st.facts.get(T("startswith", L, "'xn--'"), (None, None))[0] is True or o.st.facts.get(T("startswith", phost, "'xn--'"), (None, None))[0] is True
-            idn_decided = o.st.facts.get(T("startswith", L, "'xn--'"), (None, None))[0] is not None
+            star = o.st.ts.get(("cmp", L, "==", K("*")))
+            idn = o.st.facts.get(T("startswith", L, K("xn--")), (None, None))[0] is True or o.st.facts.get(T("startswith", phost, K("xn--")), (None, None))[0] is True
+            idn_decided = o.st.facts.get(T("startswith", L, K("xn--")), (None, None))[0] is not None
             fop, fargs = destruct(first)
             c_first = _const(first)
             if star is True:
@@ -213,7 +217,7 @@ def run(ctx):
                 ctx.ob(R1, dm.qual, f"partial wildcard: `*` inside the escaped left-most label -> {fargs[2]}", ok, why, witness=wit, node=dm.node)
                 ctx.ob(R1, dm.qual, "the partial-wildcard expansion is reached only when the label is not a bare `*`", star is False,
                        "" if star is False else "a bare `*` label falls into the partial-wildcard expansion, whose class may match nothing: `*.a.b` accepts the host `.a.b`", witness=wit, node=dm.node)
-                both_no = o.st.facts.get(T("startswith", L, "'xn--'"), (None, None))[0] is False and o.st.facts.get(T("startswith", phost, "'xn--'"), (None, None))[0] is False
+                both_no = o.st.facts.get(T("startswith", L, K("xn--")), (None, None))[0] is False and o.st.facts.get(T("startswith", phost, K("xn--")), (None, None))[0] is False
                 ctx.ob(R3, dm.qual, "wildcard expansion only when neither the label nor the hostname starts with xn--", both_no,
                        "" if both_no else "a wildcard embedded in an A-label (or matched against an IDN hostname) would be expanded: both xn-- tests must have been made and failed", witness=wit, node=dm.node)
             else:
